@@ -2645,8 +2645,11 @@ class Parameters:
             if k in self_ and hasattr(self_[k], '_autotrigger_value')
         ]
 
-        for tp in trigger_params:
-            self_[tp]._mode = 'set'
+        # (on a class that inherits an Event the first assignment gives the
+        # class its own copy: the inherited Parameter must be switched back too)
+        trigger_objs = [self_[tp] for tp in trigger_params]
+        for p in trigger_objs:
+            p._mode = 'set'
 
         values = self_.values()
         restore = {k: values[k] for k, v in kwargs.items() if k in values}
@@ -2664,11 +2667,14 @@ class Parameters:
                 if not BATCH_WATCH:
                     self_._batch_call_watchers()
             finally:
-                for tp in trigger_params:
+                for tp, p0 in zip(trigger_params, trigger_objs):
                     p = self_[tp]
                     p._mode = 'reset'
                     setattr(self_or_cls, tp, p._autotrigger_reset_value)
-                    p._mode = 'set-reset'
+                    # (this assignment, or one above, may have given a class
+                    # that inherits the Event its own copy of it)
+                    for q in (p0, p, self_[tp]):
+                        q._mode = 'set-reset'
         return restore
 
     # PARAM3_DEPRECATION
